@@ -87,16 +87,17 @@ def _canon_result(r):
 
 
 def repeat_call(ctx, kind, what, fn, args, kwargs, first):
-    """Call ``fn`` a second time with the SAME argument objects: a deterministic library function must
-    give an equal result (state leaking between calls, caches keyed by the wrong thing, arguments
-    modified by the first call).  ``first`` is the first call's (ok, result)."""
+    """Call ``fn`` a second time with the SAME argument objects and return the second outcome
+    ``(ok, result)``; the caller judges THAT outcome with its oracle.  State leaking between calls
+    (caches keyed by the wrong thing, mutable defaults, arguments modified by the first call) then shows
+    up as an ordinary violation, while a library that merely returns a different-but-correct result the
+    second time is not blamed.  A difference between the two outcomes is only counted."""
     ok1, r1 = first
     ok2, r2 = ctx.call(fn, *args, **kwargs)
     ctx.count("repeat_calls")
-    if ok1 != ok2:
-        ctx.violation(kind + "_repeat_differs", f"{what}: first call {'returned' if ok1 else 'raised ' + repr(r1)}, the same call repeated {'returned' if ok2 else 'raised ' + repr(r2)}")
-        return False
-    if ok1 and _canon_result(r1) != _canon_result(r2):
-        ctx.violation(kind + "_repeat_differs", f"{what}: the same call with the same arguments gave a different result the second time")
-        return False
-    return True
+    try:
+        if ok1 != ok2 or (ok1 and _canon_result(r1) != _canon_result(r2)):
+            ctx.count("repeat_call_outcome_differs")
+    except Exception:  # noqa: BLE001
+        pass
+    return ok2, r2
